@@ -409,7 +409,7 @@ def q3(ctx):
         ctx.check(ok, "index-is-search-then-value", "m[l] = map[search(l)].1", "Index for SlotMap returns %s" % role_str(r), where_of(ix[0]))
     # keys / values
     for nm_, c_ in (("keys", "0"), ("values", "1"), ("keys_vec", "0"), ("values_vec", "1")):
-        b = m(crate, nm_)
+        b = mir.inline_view(crate, m(crate, nm_))        # (a shared private `key_iter()` / `value_iter()` helper is looked through)
         r = b.role_of_local(0)
         cl = [x for x in role_walk(r) if isinstance(x, tuple) and x[0] == "agg" and x[1] in crate.bodies]
         ok = len(cl) == 1 and closure_returns_component(crate, cl[0], c_) and role_mentions_call(r, "iter") and not any(isinstance(x, tuple) and x[0] == "call" and x[1] in ("filter", "take", "skip") for x in role_walk(r))
